@@ -114,3 +114,39 @@ Check C11_refeed_idempotent : forall (obs : option (Q * Q)) (now : Z) (r : row) 
 Print Assumptions C11_refeed_idempotent.
 
 
+
+(** ---- creation by Comm-B, capability, stamps -- through the whole pipeline ---- *)
+From SQ Require Import Base Table Update EndToEnd EndToEnd2.
+
+
+(** the frame that creates a row contributes, if it is DF20/21, the address (and format) only: the new row is the blank row of that address *)
+Theorem C11_comm_b_new_row : forall (o : opts) (now : Z) (s : state) (line : list N) (s' : state) (rf : bool) (df a : N), step_line o now s line = Ok (s', rf, Applied df a) -> lookup (tbl s) a = None -> (0 < delete_after o)%Z -> df = 20 \/ df = 21 -> lookup (tbl s') a = Some (row_new now <| icao := a |> <| reg := icao_to_country a |> <| last_df := df |>).
+Proof. exact comm_b_new_row. Qed.
+Check C11_comm_b_new_row : forall (o : opts) (now : Z) (s : state) (line : list N) (s' : state) (rf : bool) (df a : N), step_line o now s line = Ok (s', rf, Applied df a) -> lookup (tbl s) a = None -> (0 < delete_after o)%Z -> df = 20 \/ df = 21 -> lookup (tbl s') a = Some (row_new now <| icao := a |> <| reg := icao_to_country a |> <| last_df := df |>).
+Print Assumptions C11_comm_b_new_row.
+
+(** capability: an accepted DF11 sets the recorded capability to its CA field, on both paths *)
+Theorem C11_capability_df11 : forall (o : opts) (now : Z) (s : state) (line : list N) (s' : state) (rf : bool) (a : N) (r : row) (m : list N), step_line o now s line = Ok (s', rf, Applied 11 a) -> lookup (tbl s) a = Some r -> (0 < delete_after o)%Z -> get_message line = Ok (Some m) -> exists r' : row, lookup (tbl s') a = Some r' /\ cap_ca r' = field m 6 8.
+Proof. exact capability_df11. Qed.
+Check C11_capability_df11 : forall (o : opts) (now : Z) (s : state) (line : list N) (s' : state) (rf : bool) (a : N) (r : row) (m : list N), step_line o now s line = Ok (s', rf, Applied 11 a) -> lookup (tbl s) a = Some r -> (0 < delete_after o)%Z -> get_message line = Ok (Some m) -> exists r' : row, lookup (tbl s') a = Some r' /\ cap_ca r' = field m 6 8.
+Print Assumptions C11_capability_df11.
+
+(** a DF17 frame sets it under -U and leaves it alone otherwise *)
+Theorem C11_capability_df17 : forall (o : opts) (now : Z) (s : state) (line : list N) (s' : state) (rf : bool) (a : N) (r : row) (m : list N), step_line o now s line = Ok (s', rf, Applied 17 a) -> lookup (tbl s) a = Some r -> (0 < delete_after o)%Z -> get_message line = Ok (Some m) -> exists r' : row, lookup (tbl s') a = Some r' /\ cap_ca r' = (if use_update o then field m 6 8 else cap_ca r).
+Proof. exact capability_df17. Qed.
+Check C11_capability_df17 : forall (o : opts) (now : Z) (s : state) (line : list N) (s' : state) (rf : bool) (a : N) (r : row) (m : list N), step_line o now s line = Ok (s', rf, Applied 17 a) -> lookup (tbl s) a = Some r -> (0 < delete_after o)%Z -> get_message line = Ok (Some m) -> exists r' : row, lookup (tbl s') a = Some r' /\ cap_ca r' = (if use_update o then field m 6 8 else cap_ca r).
+Print Assumptions C11_capability_df17.
+
+(** every applied frame refreshes the time stamp; the last-format marker is the frame's format except for DF18/19 on the default path (which leave it) *)
+Theorem C11_stamps_existing : forall (o : opts) (now : Z) (s : state) (line : list N) (s' : state) (rf : bool) (df a : N) (r : row), step_line o now s line = Ok (s', rf, Applied df a) -> lookup (tbl s) a = Some r -> (0 < delete_after o)%Z -> exists r' : row, lookup (tbl s') a = Some r' /\ timestamp r' = now /\ last_df r' = (if negb (use_update o) && ((df =? 18) || (df =? 19)) then last_df r else df).
+Proof. exact stamps_existing_row. Qed.
+Check C11_stamps_existing : forall (o : opts) (now : Z) (s : state) (line : list N) (s' : state) (rf : bool) (df a : N) (r : row), step_line o now s line = Ok (s', rf, Applied df a) -> lookup (tbl s) a = Some r -> (0 < delete_after o)%Z -> exists r' : row, lookup (tbl s') a = Some r' /\ timestamp r' = now /\ last_df r' = (if negb (use_update o) && ((df =? 18) || (df =? 19)) then last_df r else df).
+Print Assumptions C11_stamps_existing.
+
+(** ... and for a new row *)
+Theorem C11_stamps_new : forall (o : opts) (now : Z) (s : state) (line : list N) (s' : state) (rf : bool) (df a : N), step_line o now s line = Ok (s', rf, Applied df a) -> lookup (tbl s) a = None -> (0 < delete_after o)%Z -> exists r' : row, lookup (tbl s') a = Some r' /\ timestamp r' = now /\ last_df r' = (if dl_keeps_df df then df else 0).
+Proof. exact stamps_new_row. Qed.
+Check C11_stamps_new : forall (o : opts) (now : Z) (s : state) (line : list N) (s' : state) (rf : bool) (df a : N), step_line o now s line = Ok (s', rf, Applied df a) -> lookup (tbl s) a = None -> (0 < delete_after o)%Z -> exists r' : row, lookup (tbl s') a = Some r' /\ timestamp r' = now /\ last_df r' = (if dl_keeps_df df then df else 0).
+Print Assumptions C11_stamps_new.
+
+
